@@ -484,6 +484,21 @@ func init() {
 			if !bytes.Equal(in, keep) {
 				return "input-modified"
 			}
+			// a result stays what it is when the function is called again for another stream's metadata (same and other
+			// lengths): two groups hold their results at the same time
+			saved := append([]byte{}, out...)
+			other := append([]byte{}, in...)
+			for i := range other {
+				other[i] ^= 0x55
+			}
+			if len(other) > 16 { // keep the leading name string intact so that the same branch is taken
+				copy(other[:16], in[:16])
+			}
+			_, _ = f(other)
+			_, _ = f(append(other, 1, 2, 3))
+			if !bytes.Equal(out, saved) {
+				return "result-changed-by-a-later-call"
+			}
 			if err != nil {
 				return hx(out) + " err"
 			}
